@@ -1,4 +1,6 @@
-import Proofs.RulesSpec
+import Proofs.RulesMono
+import Proofs.RulesCase
+import Props.C02
 /-!
 C05 — a definition is accepted if and only if it obeys the static rules of DSDL.
 
@@ -140,3 +142,269 @@ open C05.Examples in
 /-- a service type as a field type breaks a rule and is rejected -/
 example : ¬ C05.Valid serviceField ∧ accept serviceField = .invalid :=
   ⟨fun hv => absurd ((C05.iff _).mpr hv) (by decide), by decide⟩
+
+
+/-! ## The extent rule against the layout of C02 -/
+
+/-! ### arithmetic kernels of the longest representation, for all values -/
+
+/-- `padTo a x` (`pad_to_alignment`) is the least multiple of `a` that is not below `x` -/
+theorem C05.padTo_spec (a x : Nat) (ha : 0 < a) :
+    a ∣ padTo a x ∧ x ≤ padTo a x ∧ padTo a x < x + a ∧ ∀ m, a ∣ m → x ≤ m → padTo a x ≤ m :=
+  Rules.padTo_spec a x ha
+
+example : padTo 8 41 = 48 ∧ padTo 8 48 = 48 ∧ padTo 1 41 = 41 := by decide
+
+/-- `bitLength n` (`int.bit_length()`) is the number of binary digits of `n` -/
+theorem C05.bitLength_spec (n : Nat) : n < 2 ^ bitLength n ∧ (n ≠ 0 → 2 ^ (bitLength n - 1) ≤ n) :=
+  Rules.bitLength_spec n
+
+example : bitLength 0 = 0 ∧ bitLength 255 = 8 ∧ bitLength 256 = 9 := by decide
+
+/-- for a width that fits 64 bits, `pow2ceil8 b` is the least power of two that is ≥ 8 and ≥ b -/
+theorem C05.pow2ceil8_spec (b : Nat) (hb : b ≤ 64) :
+    (∃ k, pow2ceil8 b = 2 ^ k) ∧ 8 ≤ pow2ceil8 b ∧ b ≤ pow2ceil8 b ∧
+    ∀ k, 8 ≤ 2 ^ k → b ≤ 2 ^ k → pow2ceil8 b ≤ 2 ^ k :=
+  Rules.pow2ceil8_spec b hb
+
+example : pow2ceil8 0 = 8 ∧ pow2ceil8 9 = 16 ∧ pow2ceil8 33 = 64 := by decide
+
+/-- the implicit length prefix / union tag before the alignment adjustment: for a capacity / variant index that fits
+    64 bits, the smallest of the standard widths 8/16/32/64 whose unsigned range holds it -/
+theorem C05.prefix_width_spec (cap : Nat) (h : cap < 2 ^ 64) :
+    pow2ceil8 (bitLength cap) ∈ [8, 16, 32, 64] ∧ cap < 2 ^ pow2ceil8 (bitLength cap) ∧
+    ∀ w ∈ [8, 16, 32, 64], cap < 2 ^ w → pow2ceil8 (bitLength cap) ≤ w :=
+  Rules.pow2ceil8_bitLength_spec cap h
+
+example : pow2ceil8 (bitLength 255) = 8 ∧ pow2ceil8 (bitLength 256) = 16 ∧ pow2ceil8 (bitLength (2 ^ 32)) = 64 := by decide
+
+/-! ### the bridge -/
+
+/-- The stand-in composite (a sealed structure of `maxBits / 8` bytes) interprets a reference faithfully whenever the
+    recorded longest representation is a whole number of bytes — the hypotheses of the bridge are satisfiable. -/
+theorem C05.standIn_faithful (i : CompInfo) (h : 8 ∣ i.maxBits) : Faithful standIn i := Rules.standIn_faithful i h
+
+example : Faithful standIn ⟨true, false, 16⟩ ∧ Faithful standIn ⟨false, false, 0⟩ :=
+  ⟨C05.standIn_faithful _ (by decide), C05.standIn_faithful _ (by decide)⟩
+
+/-- **The number the extent rule compares against is the maximum of the length set of C02.**
+    For every schema whose field types pass the constructor checks (widths, capacity ≥ 1), whose variable-length
+    capacities fit the 64-bit length prefix, whose references are interpreted by any faithful `ρ`, and — for unions —
+    that has 2 … 2^64 variants (`RSchema.LayoutOk`): the translated sealed composite is accepted by the layout
+    constructors, `Spec.longest` is its `bit_length_set.max`, and that is the greatest element of the Specification's
+    length set `specLens` (C02.bls_is_spec). -/
+theorem C05.longest_is_layout_max (ρ : CompInfo → Layout.Ty) (sc : RSchema) (h : sc.LayoutOk ρ) :
+    (sc.toLayout ρ).wf = true ∧ longest sc = (sc.toLayout ρ).bls.max ∧
+    longest sc ∈ Layout.specLens (sc.toLayout ρ) ∧ ∀ l ∈ Layout.specLens (sc.toLayout ρ), l ≤ longest sc := by
+  have hw := RSchema.toLayout_wf ρ sc h
+  refine ⟨hw, longest_eq_bls_max ρ sc h, ?_⟩
+  rw [longest_eq_bls_max ρ sc h, ← C02.bls_is_spec _ hw]
+  exact Bls.max_exact _ (Layout.bls_wf _ hw)
+
+/-- The extent rule in declarative form: `longest ≤ e` says that every possible serialized length of the sealed
+    composite (per the Specification, C02) fits the extent. -/
+theorem C05.extent_rule (ρ : CompInfo → Layout.Ty) (sc : RSchema) (h : sc.LayoutOk ρ) (e : Int) :
+    (longest sc : Int) ≤ e ↔ ∀ l ∈ Layout.specLens (sc.toLayout ρ), (l : Int) ≤ e := by
+  obtain ⟨_, _, hmem, hmax⟩ := C05.longest_is_layout_max ρ sc h
+  constructor
+  · intro hle l hl
+    exact Int.le_trans (Int.ofNat_le.mpr (hmax l hl)) hle
+  · intro hall
+    exact hall _ hmem
+
+namespace C05.Examples
+def dep16 : CompInfo := ⟨true, false, 16⟩
+/-- the request schema of `svc`: `@union`, `uint8 a`, `vendor.X.1.0[<=2] b`, a constant, `@extent 64` -/
+def req : RSchema :=
+  ⟨[.field u8 "a", .field (.varArr (.comp dep16) 2) "b", .const (.scalar (.float 32 .saturated)) "K"], true, some (.extent 64)⟩
+/-- the response schema of `svc`: `void3`, `utf8[<=9] s`, `@sealed` -/
+def resp : RSchema := ⟨[.padding 3, .field (.varArr .utf8 9) "s"], false, some .sealed⟩
+
+theorem req_layoutOk : req.LayoutOk standIn := by
+  refine ⟨?_, fun _ => by decide⟩
+  intro t ht
+  have : t = u8 ∨ t = .varArr (.comp dep16) 2 := by
+    have e : req.fieldTys = [u8, .varArr (.comp dep16) 2] := by decide
+    simpa [e] using ht
+  rcases this with rfl | rfl
+  · exact ⟨⟨by decide, by decide⟩, trivial⟩
+  · exact ⟨trivial, Rules.standIn_faithful _ (by decide), by decide, by decide⟩
+
+theorem resp_layoutOk : resp.LayoutOk standIn := by
+  refine ⟨?_, fun h => by cases h⟩
+  intro t ht
+  have : t = .scalar (.void 3) ∨ t = .varArr .utf8 9 := by
+    have e : resp.fieldTys = [.scalar (.void 3), .varArr .utf8 9] := by decide
+    simpa [e] using ht
+  rcases this with rfl | rfl
+  · exact ⟨⟨by decide, by decide⟩, trivial⟩
+  · exact ⟨trivial, trivial, by decide, by decide⟩
+end C05.Examples
+
+open C05.Examples in
+/-- non-vacuity: a union with a variable-length array of a referenced composite (tag 8 + prefix 8 + 2·16 = 48) and a
+    structure with padding and a string (3 + prefix 8 + 9·8 = 83, padded to 88); the layout maxima are the same numbers -/
+example : longest req = 48 ∧ (req.toLayout standIn).bls.max = 48 ∧ longest resp = 88 ∧ (resp.toLayout standIn).bls.max = 88 := by
+  have h1 := (C05.longest_is_layout_max standIn req req_layoutOk).2.1
+  have h2 := (C05.longest_is_layout_max standIn resp resp_layoutOk).2.1
+  have e1 : longest req = 48 := by decide
+  have e2 : longest resp = 88 := by decide
+  exact ⟨e1, by rw [← h1, e1], e2, by rw [← h2, e2]⟩
+
+open C05.Examples in
+example : ((longest req : Int) ≤ 64 ↔ ∀ l ∈ Layout.specLens (req.toLayout standIn), (l : Int) ≤ 64) :=
+  C05.extent_rule standIn req req_layoutOk 64
+
+/-- every schema of a definition that obeys the rules obeys the schema rules (under the name it is checked with) -/
+theorem C05.schemas_valid (d : Defn) (hv : C05.Valid d) (sc : RSchema) (hsc : sc ∈ (summ d.stmts).schemas) :
+    ∃ comps, SchemaValid comps (summ d.stmts).deprecated sc := by
+  obtain ⟨_, hf⟩ := hv.final
+  simp only [BState.schemas, List.mem_append, List.mem_singleton] at hsc
+  by_cases hm : d.stmts.contains .marker = true
+  · have hd : (summ d.stmts).done = [segSummary (firstSeg d.stmts)] := by unfold summ; rw [if_pos hm]
+    rw [hd] at hf hsc
+    rcases hsc with hsc | rfl
+    · simp only [List.mem_singleton] at hsc; subst hsc; exact ⟨_, hf.1⟩
+    · exact ⟨_, hf.2.1⟩
+  · have hd : (summ d.stmts).done = [] := by unfold summ; rw [if_neg hm]
+    rw [hd] at hf hsc
+    rcases hsc with hsc | rfl
+    · cases hsc
+    · exact ⟨_, hf.1⟩
+
+open C05.Examples in
+example : req ∈ (summ svc.stmts).schemas ∧ resp ∈ (summ svc.stmts).schemas ∧ C05.Valid svc :=
+  ⟨by decide, by decide, (C05.iff svc).mp (by decide)⟩
+
+/-- **End to end**: in every accepted definition, for every schema (request / response / message) whose references are
+    interpreted faithfully and whose variable-length capacities and variant count fit 64 bits, the translated sealed
+    composite is one the layout constructors accept, and the schema is either `@sealed` or carries an extent that is a
+    whole number of bytes and is not below ANY serialized length the Specification (C02) gives that composite. -/
+theorem C05.accepted_extent_covers_layout (d : Defn) (ha : accept d = .ok) (ρ : CompInfo → Layout.Ty) (sc : RSchema)
+    (hsc : sc ∈ (summ d.stmts).schemas) (hfit : ∀ t ∈ sc.fieldTys, t.Fits ρ) (hlen : sc.fieldTys.length ≤ 2 ^ 64) :
+    (sc.toLayout ρ).wf = true ∧
+    (sc.mode = some .sealed ∨
+      ∃ e, sc.mode = some (.extent e) ∧ e % 8 = 0 ∧ ∀ l ∈ Layout.specLens (sc.toLayout ρ), (l : Int) ≤ e) := by
+  have hv := (C05.iff d).mp ha
+  obtain ⟨comps, hsv⟩ := C05.schemas_valid d hv sc hsc
+  have hok : sc.LayoutOk ρ :=
+    RSchema.layoutOk_of ρ sc (schemas_typeOk hv.statements hsc) hfit hsv.unionArity hlen
+  refine ⟨(C05.longest_is_layout_max ρ sc hok).1, ?_⟩
+  rcases hsv.mode with hm | ⟨e, hm, h8, hle⟩
+  · exact Or.inl hm
+  · exact Or.inr ⟨e, hm, h8, (C05.extent_rule ρ sc hok e).mp hle⟩
+
+open C05.Examples in
+/-- non-vacuity on the service `svc`: its schemas are `req` and `resp`, all hypotheses hold with the stand-in
+    interpretation -/
+example : (summ svc.stmts).schemas = [req, resp] ∧ accept svc = .ok ∧
+    (∀ t ∈ req.fieldTys, t.Fits standIn) ∧ (∀ t ∈ resp.fieldTys, t.Fits standIn) := by
+  refine ⟨by decide, by decide, ?_, ?_⟩
+  · intro t ht
+    have : t = u8 ∨ t = .varArr (.comp dep16) 2 := by
+      have e : req.fieldTys = [u8, .varArr (.comp dep16) 2] := by decide
+      simpa [e] using ht
+    rcases this with rfl | rfl
+    · trivial
+    · exact ⟨Rules.standIn_faithful _ (by decide), by decide⟩
+  · intro t ht
+    have : t = .scalar (.void 3) ∨ t = .varArr .utf8 9 := by
+      have e : resp.fieldTys = [.scalar (.void 3), .varArr .utf8 9] := by decide
+      simpa [e] using ht
+    rcases this with rfl | rfl
+    · trivial
+    · exact ⟨trivial, by decide⟩
+
+/-- GAP OF THE RULES MODEL (not of pydsdl): `Ty.ctorOk` only demands capacity ≥ 1, so the model accepts a
+    variable-length array whose capacity needs more than 64 bits, while the layout model (and the real library:
+    `UnsignedIntegerType(128)` → `InvalidBitLengthError`, an `InvalidDefinitionError`) rejects it.  This is why the bridge
+    carries the hypothesis `cap < 2 ^ 64`. -/
+theorem C05.model_gap_varArr_capacity :
+    accept ⟨⟨["vendor"], "A", 1, 0, none, false⟩, [.field (.varArr (.uint 8 .saturated) (2 ^ 64)) "a", .sealed]⟩ = .ok ∧
+    (Layout.Ty.varr (.prim 8) (2 ^ 64)).wf = false ∧
+    accept ⟨⟨["vendor"], "A", 1, 0, none, false⟩, [.field (.varArr (.uint 8 .saturated) (2 ^ 64 - 1)) "a", .sealed]⟩ = .ok ∧
+    (Layout.Ty.varr (.prim 8) (2 ^ 64 - 1)).wf = true := by
+  refine ⟨by decide, by decide +kernel, by decide, by decide +kernel⟩
+
+/-- … and beyond 128 bits even the prefix widths of the two models differ (both far outside what is accepted) -/
+example : pow2ceil8 (bitLength (2 ^ 128)) = 128 ∧ Layout.stdWidth (2 ^ 128) = 256 := by decide +kernel
+
+/-! ## Letter case -/
+
+/-- `lowerChar` is ASCII lower-casing: `A..Z` move by 32 code points, every other character (of all of Unicode) is
+    unchanged -/
+theorem C05.lowerChar_spec (c : Char) :
+    (isUpper c = true → lowerChar c = Char.ofNat (c.toNat + 32)) ∧ (isUpper c = false → lowerChar c = c) :=
+  Rules.lowerChar_spec c
+
+example : lowerChar 'Q' = 'q' ∧ lowerChar 'q' = 'q' ∧ lowerChar '_' = '_' ∧ lowerChar 'İ' = 'İ' ∧ lowerChar '\u212A' = '\u212A' := by decide
+
+/-- lowering is idempotent, so "reserved in any letter case" is a property of the lowered name alone -/
+theorem C05.lower_idempotent (n : List Char) : lower (lower n) = lower n ∧ (Reserved (lower (lower n)) ↔ Reserved (lower n)) :=
+  ⟨lower_idem n, by rw [lower_idem]⟩
+
+example : lower "uInT8".toList = "uint8".toList ∧ Reserved (lower "uInT8".toList) :=
+  ⟨by decide, (reserved_iff _).mp (by decide)⟩
+
+/-- **`check_name` does not look at the letter case**: two names of the same length that agree position by position up
+    to ASCII letter case get the same verdict, the same `NameOk`, and the same reservedness. -/
+theorem C05.name_case_insensitive (a b : String) (h : sameUpToCase a.toList b.toList) :
+    checkName a = checkName b ∧ (NameOk a ↔ NameOk b) ∧ (Reserved (lower a.toList) ↔ Reserved (lower b.toList)) :=
+  ⟨checkName_sameUpToCase a b h, NameOk_sameUpToCase a b h, Reserved_sameUpToCase _ _ h⟩
+
+example : sameUpToCase "OpTiOnAl".toList "optional".toList ∧ sameUpToCase "Abc_9".toList "aBC_9".toList ∧
+    ¬ sameUpToCase "abc".toList "abd".toList := by
+  simp only [sameUpToCase_iff]; decide
+
+/-- … in particular writing ANY subset of the letters of a name in the other case (`recase p`, `p` selects positions)
+    does not change the verdict -/
+theorem C05.name_recase (p : Nat → Bool) (s : String) : checkName (String.ofList (recase p s.toList)) = checkName s :=
+  checkName_recase p s
+
+example : recase (fun i => i % 2 == 0) "uint8_x".toList = "UiNt8_X".toList ∧ checkName "uint8_x" = true := by decide
+
+/-- the verdict of `check_name` is the character-set check plus the reserved words / patterns, both evaluated on the
+    lowered name -/
+theorem C05.name_factors_through_lower (s : String) : checkName s = checkName (String.ofList (lower s.toList)) :=
+  checkName_eq_lower s
+
+example : checkName "Bool" = false ∧ checkName (String.ofList (lower "Bool".toList)) = false ∧ checkName "Bool1" = true := by decide
+
+/-! ## Further rule kernels and monotonicity -/
+
+/-- "a service type is not a field type", read on the schemas: no attribute type is a service type or an array of one -/
+theorem C05.no_service_rule (b : BState) : usesService b = false ↔ ServiceFree b := usesService_eq_false_iff b
+
+open C05.Examples in
+example : ServiceFree (summ svc.stmts) ∧ ¬ ServiceFree (summ serviceField.stmts) :=
+  ⟨(C05.no_service_rule _).mp (by decide), fun h => absurd ((C05.no_service_rule _).mpr h) (by decide)⟩
+
+/-- the length of a full name is the components plus one separator between neighbours (the 255 limit counts this) -/
+theorem C05.fullName_length (comps : List String) :
+    (fullName comps).length = (comps.map String.length).sum + (comps.length - 1) := Rules.fullName_length comps
+
+example : (fullName ["vendor", "node", "Status"]).length = 6 + 4 + 6 + 2 := by decide
+
+/-- a larger extent (still a whole number of bytes) keeps a schema valid; a sealed schema stays valid with any
+    byte-multiple extent that covers its longest representation; `@deprecated` on the enclosing type keeps it valid -/
+theorem C05.schema_monotone (comps : List String) (sc : RSchema) :
+    (∀ dep e e', SchemaValid comps dep { sc with mode := some (.extent e) } → e ≤ e' → e' % 8 = 0 →
+      SchemaValid comps dep { sc with mode := some (.extent e') }) ∧
+    (∀ dep e, SchemaValid comps dep { sc with mode := some .sealed } → (longest sc : Int) ≤ e → e % 8 = 0 →
+      SchemaValid comps dep { sc with mode := some (.extent e) }) ∧
+    (SchemaValid comps false sc → SchemaValid comps true sc) :=
+  ⟨fun _ _ _ h hle h8 => h.extent_mono hle h8, fun _ _ h hle h8 => h.sealed_to_extent hle h8, fun h => h.deprecate⟩
+
+open C05.Examples in
+example : SchemaValid ["vendor", "node", "Status"] false { resp with mode := some (.extent 88) } ∧
+    SchemaValid ["vendor", "node", "Status"] false { resp with mode := some .sealed } :=
+  ⟨(C05.schema_rule _ _ _).mp (by decide), (C05.schema_rule _ _ _).mp (by decide)⟩
+
+/-- appending a field never shortens the longest representation, for structures and for unions -/
+theorem C05.longest_monotone (fs : List Ty) (t : Ty) :
+    structMax fs ≤ structMax (fs ++ [t]) ∧ unionMax fs ≤ unionMax (fs ++ [t]) :=
+  ⟨structMax_append fs t, unionMax_append fs t⟩
+
+open C05.Examples in
+example : structMax [u8] = 8 ∧ structMax ([u8] ++ [.scalar .bool]) = 16 ∧ unionMax [u8, u8] = 16 ∧
+    unionMax ([u8, u8] ++ [.scalar .bool]) = 16 := by decide
